@@ -109,6 +109,12 @@ class Lib:
             return int(x)
         if isinstance(x, SV) and x.typ.kind in ('Int', 'Bool'):
             return coerce(x, INT)
+        if isinstance(x, SV) and x.typ.kind == 'Str':
+            # int(str): ValueError unless the string spells an integer (uninterpreted predicate: nothing is known about which strings do)
+            self.use('int(str): raises ValueError unless the string spells an integer (uninterpreted predicate and value)')
+            ok = th.func('str_spells_int', z3.StringSort(), z3.BoolSort())(x.t)
+            I.require(ok, 'ValueError', 'int() of a string that is not a number')
+            return SV(INT, th.func('str_to_int', z3.StringSort(), z3.IntSort())(x.t))
         raise Undecided('int() of a symbolic non-integer')
 
     def b_abs(self, I, x):
@@ -1305,6 +1311,29 @@ class Lib:
 
     def m_Str_upper(self, I, s, *a):
         return self._str_fn(I, s, 'upper', *a)
+
+    def m_Str_startswith(self, I, s, prefix):
+        p = prefix if isinstance(prefix, SV) else lift(prefix)
+        return SV(BOOL, z3.PrefixOf(p.t, s.t))
+
+    def m_Str_endswith(self, I, s, suffix):
+        p = suffix if isinstance(suffix, SV) else lift(suffix)
+        return SV(BOOL, z3.SuffixOf(p.t, s.t))
+
+    def m_Str_isdigit(self, I, s):
+        self.use('str.isdigit: uninterpreted predicate of the string')
+        return SV(BOOL, th.func('str_isdigit', z3.StringSort(), z3.BoolSort())(s.t))
+
+    def m_Str_split(self, I, s, *a):
+        '''str.split(): the list of fields is an uninterpreted function of the string (any length, any fields)'''
+        if a:
+            raise Undecided('str.split with arguments')
+        from .values import parse_type
+        t = parse_type('Seq[Str]')
+        self.use('str.split(): uninterpreted function of the string (any number of fields)')
+        r = SV(t, th.func('str_split', z3.StringSort(), zsort(t))(s.t))
+        I.path.assume(seq_len(r) >= 0)
+        return r
 
     def m_Str_encode(self, I, s, *a):
         raise Undecided('str.encode')
